@@ -22,6 +22,7 @@ PAIRS = [
  (True, "def f(s, x):\n    if not s.MIN < len(x) < s.MAX:\n        raise E()\n    return 1", "def f(s, x):\n    n = len(x)\n    if n <= s.MIN or n >= s.MAX:\n        raise E()\n    return 1"),
  (True, "def f(e):\n    if e in (0, -1):\n        return 1\n    return 2", "def f(e):\n    if e == 0 or e == -1:\n        return 1\n    return 2"),
  # ---------------- must NOT be proven equivalent
+ (False, "def f(nt, v, i):\n    if nt and nt[i].isOptional and not v[i].isValue:\n        return 1\n    return 2", "def f(nt, v, i):\n    if not v[i].isValue and nt and nt[i].isOptional:\n        return 1\n    return 2"),
  (False, "def f(v, b):\n    return v and 0 or b", "def f(v, b):\n    return 0 if v else b"),
  (False, "def f(a, b):\n    if a <= b:\n        return 1\n    return 2", "def f(a, b):\n    if not b < a:\n        return 1\n    return 2"),
  (False, "def f(a):\n    x = a.b\n    g(a)\n    return x", "def f(a):\n    g(a)\n    return a.b"),
